@@ -180,6 +180,11 @@ def c15(pid, tier, replay):
                                          digest="%s|%s" % ("", rr.get("lexer_out", {}).get("digest")),
                                          diff="-|generated lexer")) + "\n")
     shutil_rm(os.path.join(gd, "lexmap"))
+    # the module of token-id constants for hand-written lexers (CTTokenMapBuilder): several
+    # processes per token map; content against TokenMap.tla, bytes against each other
+    tm_lines, ntm = tokmaps(res, random.Random(seed * 101 + 7), 40 if thorough else 8, 4 if thorough else 3)
+    gen_lines += tm_lines
+    res.notes["token_maps"] = ntm
     res.notes["generated_module_pairs"] = len(mods) + 1
     res.notes["generated_module_pairs_built"] = built_ok
     if built_ok < 6:
@@ -242,6 +247,60 @@ def c15(pid, tier, replay):
     res.assumptions += ["thread schedules are sampled on the real code (exhaustive only in OnceInit.tla); std::sync::OnceLock is trusted",
                         "hash seeds: each process gets fresh RandomState keys from the OS"]
     return res.finish()
+
+
+TM_POOL = ["ID", "int", "Int", "a", "b", "c", "while", "IF", "x1", "long_name", "z", "q", "w", "e", "r", "t", "y", "u", "i", "o", "p",
+           "+", "-", "*", "<=", "a b", "\u00e9", "\u00e9t\u00e9", "\u4e16", "_", "A_B", "k9"]
+TM_NAMES = {"+": "PLUS", "-": "MINUS", "*": "STAR", "<=": "LE", "a b": "A_B2"}
+
+
+def tokmaps(res, rng, n, procs):
+    """n token maps (names -> ids, rename maps that cover all / some / none of the names that are not
+    identifiers), each built by CTTokenMapBuilder in `procs' fresh processes"""
+    lines = []
+    d = os.path.join(res.wd, "tokmap")
+    for i in range(n):
+        names = rng.sample(TM_POOL, rng.randint(2, 6) if i % 4 == 3 else rng.randint(10, 22))
+        ids = list(range(len(names)))
+        rng.shuffle(ids)
+        if rng.random() < 0.3:
+            ids = [x // 2 for x in ids]            # ids may be shared
+        mode = i % 4                               # 0: complete rename map, 1: partial, 2: none, 3: small + odd entries
+        bad = [x for x in names if x in TM_NAMES]
+        if mode == 0:
+            rename = [[x, TM_NAMES[x]] for x in bad]
+        elif mode == 1:
+            rename = [[x, TM_NAMES[x]] for x in bad[: len(bad) // 2]] + [["ID", "IDENT"]]
+        elif mode == 2:
+            rename = None
+            if rng.random() < 0.5:
+                names = [x for x in names if x not in TM_NAMES]
+                ids = ids[: len(names)]
+        else:
+            rename = [["nosuch", "X"], [names[0], "first"], [names[0], "FIRST2"]] + [[x, TM_NAMES[x]] for x in bad]
+            if rng.random() < 0.3:
+                rename.append([names[-1], "not ok"])
+        req = dict(mod_name="toks%d" % i, tokens=[[a, b] for a, b in zip(names, ids)], allow_dead_code=bool(i % 2))
+        if rename is not None:
+            req["rename"] = rename
+        for k in range(procs):
+            shutil_rm(d)
+            os.makedirs(d)
+            rq = os.path.join(d, "req.json")
+            with open(rq, "w") as f:
+                json.dump(req, f)
+            p = subprocess.run([core.VH, "tokmap", rq], env=dict(os.environ, OUT_DIR=d), stdout=subprocess.PIPE, stderr=subprocess.PIPE, text=True, timeout=120)
+            if p.returncode != 0 or not p.stdout.startswith("{"):
+                raise core.ToolError("vh tokmap failed: " + p.stderr[-500:])
+            r = json.loads(p.stdout)
+            cps = lambda s: [ord(c) for c in s]
+            lines.append(json.dumps(dict(ev="tokmap", id="tokmap%d" % i, proc=k, adc=req["allow_dead_code"],
+                                         tokens=[[cps(a), b] for a, b in req["tokens"]],
+                                         rename=[[cps(a), cps(b)] for a, b in (rename or [])], res=r)) + "\n")
+            lines.append(json.dumps(dict(ev="built", id="generated-tokmap%d" % i, width=0, proc=k, digest=r["digest"] + ("|ok" if r["ok"] else "|err"),
+                                         diff="generated token map")) + "\n")
+    shutil_rm(d)
+    return lines, n
 
 
 def shutil_rm(d):
